@@ -4,7 +4,7 @@ import wire
 from wire import mk_fmt, cells
 from props.common import reply_fmt, guarded, canon_cells, PALETTE
 from props.widthenv import (BIG, HUGE, long_text, SEQ_ALPHA, SEQ_TEXTS, ALPHA3, wc, env_fields, text_of, cut_layouts, self_check, realize, shared_variants,
-                            shared_case_fields, pool_size, pool_object, safe_oracle, safe_impl, limit_memory)
+                            shared_case_fields, pool_size, pool_object, safe_oracle, safe_impl, limit_memory, budgeted, DidNotReturn, over_budget)
 import curtsies.formatstring as F
 
 PROP = "C10"
@@ -200,6 +200,11 @@ def line(c):
 
 
 def run_impl(c):
+    size = len(c["s"]) if "s" in c else sum(len(t) for t, _ in c.get("f", []))
+    return budgeted(lambda: _call(c), size, inside=c["op"] in ("width", "widthat", "slice"))
+
+
+def _call(c):
     op = c["op"]
     if op == "overlap":
         return F.interval_overlap(c["a"], c["b"], c["x"], c["y"])
@@ -282,6 +287,8 @@ def _oracle(c):
     W = sum(ws)
     try:
         r = run_impl(c)
+    except DidNotReturn as e:
+        return "%s did not return within %s s (the unchanged code needs milliseconds)" % (op, e.seconds)
     except Exception as e:  # noqa: BLE001
         return "%s raised %s on a string of narrow/wide/combining characters" % (op, type(e).__name__)
     if op == "width":
@@ -470,6 +477,8 @@ def check(ctx):
     # bounds, int indices) and the internal helpers width_aware_slice()/interval_overlap(); never a verdict by itself
     ctx.tie("C10/outside-quantifier", outside, line, impl, canon, canon, level="representation")
     for c in cases:
+        if over_budget(ctx):
+            break
         w = oracle(c)
         ctx.count(c, nontrivial=nontrivial(c), tag=c["op"])
         if w:
